@@ -201,6 +201,85 @@ def make_callable(spec, body):
     return ns["f"]
 
 
+# the `resources` argument of execute_operation as OTHER ITERABLES than a list (script field "it"; the model's itkind)
+ITKINDS = {"list": "KList", "tuple": "KTuple", "gen": "KGen", "iter": "KIter", "map": "KMap", "once": "KOnce",
+           "obj": "KObj", "keys": "KKeys", "dict": "KDict", "set": "KSet"}
+IT_ONE_SHOT = ("gen", "iter", "map", "once")
+
+
+class _Once:
+    """A hand-written one-shot iterable: __iter__ returns itself."""
+
+    def __init__(self, items):
+        self._items = list(items)
+        self._i = 0
+
+    def __iter__(self):
+        return self
+
+    def __next__(self):
+        if self._i >= len(self._items):
+            raise StopIteration
+        self._i += 1
+        return self._items[self._i - 1]
+
+
+class _Bag:
+    """A hand-written re-iterable collection without __len__ / __bool__."""
+
+    def __init__(self, items):
+        self._items = list(items)
+
+    def __iter__(self):
+        return iter(list(self._items))
+
+
+def make_iterable(kind, names, flip=False):
+    """The request `names` (resource ids, in order) as an iterable of the given kind."""
+    if kind == "list":
+        return list(names)
+    if kind == "tuple":
+        return tuple(names)
+    if kind == "gen":
+        return (x for x in list(names))
+    if kind == "iter":
+        return iter(list(names))
+    if kind == "map":
+        return map(str, list(names))
+    if kind == "once":
+        return _Once(names)
+    if kind == "obj":
+        return _Bag(names)
+    if kind == "keys":
+        return dict.fromkeys(names).keys()
+    if kind == "dict":
+        return dict.fromkeys(names, 1)
+    if kind == "set":
+        if len(set(names)) > 1:
+            raise ValueError("a set request has one distinct element here (iteration order of str sets is per process)")
+        return frozenset(names) if flip else set(names)
+    raise ValueError(f"unknown iterable kind {kind}")
+
+
+def coq_request(sc, reqs):
+    k = sc.get("it", "list")
+    items = clist([cz(r) for r in reqs])
+    return items if k == "list" else f"(request_of {ITKINDS[k]} {items})"
+
+
+def fop_uses_reg(a):
+    return a[0] == "reg"
+
+
+def script_uses_reg(sc):
+    return any((x[0] == "do" and fop_uses_reg(x[1])) or (x[0] == "exec" and script_uses_reg(x[4])) for x in sc["work"])
+
+
+def ops_use_reg(ops):
+    """Does the history register a resource anywhere (the model's uses_reg)?"""
+    return any(script_uses_reg(a[4]) if a[0] == "exec" else fop_uses_reg(a) for a in ops)
+
+
 def coq_shape(spec):
     kind, lo, hi = spec
     return f"(mkShape {lo}%nat {'None' if hi is None else '(Some %d%%nat)' % hi} {cbool(kind != 'falsy-object')})"
@@ -502,6 +581,15 @@ class World:
         if k == "shutdown":
             (self.cell or self.sys).shutdown()
             return [0]
+        if k == "reg":
+            # register_resource on the live system: a new id, or (re-registration) one that is registered already
+            _, r, pre = a
+            if not 0 <= r < 1000:
+                raise ValueError("resource ids are 0..999 (the model keeps replaced locks under keys >= 1000)")
+            (self.cell or self.sys).register_resource(rname(r), allow_preemption=bool(pre))
+            if r not in self.res:
+                self.res.append(r)
+            return [0]
         if k == "tick":
             VClock.now_s += a[1]
             return [0]
@@ -516,7 +604,7 @@ class World:
             return [[100, -1]], None
         self.ever.add(o)
         log = []
-        info = {"op": o, "reqs": list(reqs), "entry": None, "acq_from": len(self.acq_log), "script": sc,
+        info = {"op": o, "reqs": list(reqs), "it": sc.get("it", "list"), "entry": None, "acq_from": len(self.acq_log), "script": sc,
                 "nested": [], "depth": len(self.encl), "before": self.view(),
                 "runs": {"work": 0, "validate": 0, "cp": 0}}     # how many times each callback BODY ran
         runs = info["runs"]
@@ -571,7 +659,11 @@ class World:
         raised = None
         try:
             # `resources` is Optional: an empty request list is passed as None by every other operation id
-            rlist = None if (not reqs and o % 2 == 0) else [rname(r) for r in reqs]
+            itk = sc.get("it", "list")
+            if itk == "list":
+                rlist = None if (not reqs and o % 2 == 0) else [rname(r) for r in reqs]
+            else:
+                rlist = make_iterable(itk, [rname(r) for r in reqs], flip=o % 2 == 0)
             if self.cell is not None:
                 cres = self.cell.execute("agent", oname(o), work_fn, resources=rlist,
                                          validate_fn=None if sc["validate"] == "none" else validate_fn, priority=p)
@@ -626,6 +718,9 @@ def run_history(case):
     try:
         w = World(case["res"], case["w"])
         obs, steps = [], []
+        # the dependency graph is not compared in histories with a registration (its edges are labelled with the
+        # resource id, which the replaced and the new lock share: Model.v, [reregister])
+        hide = ops_use_reg(case["ops"])
         for a in case["ops"]:
             before = w.view()
             w.calls = []
@@ -641,7 +736,7 @@ def run_history(case):
             else:
                 rows, info = [[100] + w.fstep(a)], None
             obs += rows
-            obs += w.snapshot()
+            obs += [row for row in w.snapshot() if not (hide and row[0] in (103, 104))]
             steps.append({"op": a, "ret": rows[0][1:], "before": before, "after": w.view(), "info": info,
                           "calls": w.calls})
         return obs, steps
@@ -680,6 +775,8 @@ def coq_fop(a):
         return f"(FAdvance {cz(a[1])})"
     if k == "pop":
         return f"(FPopWaiter {cz(a[1])})"
+    if k == "reg":
+        return f"(FRegister {cz(a[1])} {cbool(a[2])})"
     raise ValueError(a)
 
 
@@ -711,7 +808,7 @@ def coq_script(sc):
         if x[0] == "probe":
             return "WProbe"
         if x[0] == "exec":
-            return f"(WExec {cz(x[1])} {cz(x[2])} {clist([cz(r) for r in x[3]])} {coq_script(x[4])})"
+            return f"(WExec {cz(x[1])} {cz(x[2])} {coq_request(x[4], x[3])} {coq_script(x[4])})"
         return f"(WDo {coq_fop(x[1])})"
     work = clist([wact(x) for x in sc["work"] if x[0] != "look"])
     cpw = clist([clist([coq_cact(x) for x in acts if x[0] != "look"]) for acts in sc.get("cpw", [])])
@@ -723,7 +820,7 @@ def coq_script(sc):
 
 def coq_op(a):
     if a[0] == "exec":
-        return f"(OExec {cz(a[1])} {cz(a[2])} {clist([cz(r) for r in a[3]])} {coq_script(a[4])})"
+        return f"(OExec {cz(a[1])} {cz(a[2])} {coq_request(a[4], a[3])} {coq_script(a[4])})"
     return f"(OFlat {coq_fop(a)})"
 
 
@@ -736,12 +833,54 @@ def coq_res(res):
     return clist([ctuple(cz(r), cbool(p)) for r, p in res])
 
 
-def plain_script(cp=(), work=(), raises=False, validate="none", cpw=(), val=0, sig=None):
+def plain_script(cp=(), work=(), raises=False, validate="none", cpw=(), val=0, sig=None, it=None):
     sc = {"cp": list(cp), "cpw": [[list(x) for x in acts] for acts in cpw],
           "work": [list(x) for x in work], "raises": raises, "validate": validate, "val": val}
     if sig:
         sc["sig"] = {k: list(v) for k, v in sig.items()}
+    if it:
+        sc["it"] = it
     return sc
+
+
+GRAPH_READERS = ("wd", "maint")
+
+
+def reg_safe(case):
+    """Histories with a registration: the model's dependency graph is not exact there (see Model.v), so they do not run
+    its readers (watchdog.execute / run_maintenance), and they do not release a re-registered id through the step API
+    (release_resource goes through the operation's own reference, which the step `rel o r` cannot name in the model).
+    Purely syntactic; a history without a registration is returned as it is."""
+    if not ops_use_reg(case["ops"]):
+        return case
+    regd = set()
+
+    def collect(ops):
+        for a in ops:
+            if a[0] == "reg":
+                regd.add(a[1])
+            elif a[0] == "exec":
+                collect([x[1] if x[0] == "do" else x for x in a[4]["work"] if x[0] in ("do", "exec")])
+    collect(case["ops"])
+
+    def ok(f):
+        return f[0] not in GRAPH_READERS and not (f[0] == "rel" and f[2] in regd)
+
+    def script(sc):
+        work = []
+        for x in sc["work"]:
+            if x[0] == "do" and not ok(x[1]):
+                continue
+            work.append(x[:4] + [script(x[4])] if x[0] == "exec" else x)
+        cpw = [[x for x in acts if not (x[0] == "do" and not ok(x[1]))] for acts in sc.get("cpw", [])]
+        return {**sc, "work": work, "cpw": cpw}
+    ops = []
+    for a in case["ops"]:
+        if a[0] == "exec":
+            ops.append(a[:4] + [script(a[4])])
+        elif a[0] == "look" or ok(a):
+            ops.append(a)
+    return {**case, "ops": ops}
 
 
 def raising_sites(sc, log):
@@ -846,6 +985,24 @@ class C14(Check):
             "signature x (returns / rejects / raises x exception values) for each of the three callables, all three "
             "tolerant at once, at top level and nested, each followed by an operation that needs the same resources; 30 % "
             "of the random scripts draw shapes (12 % of those a signature that does not accept the call). "
+            "Widened for the `resources` ARGUMENT AS OTHER ITERABLES than a list (script field it; the model's "
+            "request_of): tuple, generator, iter(list), map object, a hand-written one-shot iterator, a hand-written "
+            "re-iterable without __len__, dict keys view, dict, set / frozenset (one distinct id) - exhaustive part: each "
+            "kind x request lists (one id, two, a repeat, an unregistered id, empty) x faults x (nothing held / the "
+            "non-preemptable resource held by another operation: the request must block / preemptable ones held), the "
+            "work function looks at the locks, a follow-up operation with the same kind of request, and a nested "
+            "operation with such a request; 25 % of the random scripts draw a kind. "
+            "Widened for REGISTRATION ON THE LIVE SYSTEM (step reg = register_resource; the model's FRegister): a new id, "
+            "or an id that is registered already (re-registration, the only way to switch allow_preemption) while it is "
+            "free / held once / held re-entrantly / held by a preemptor whose victim still refers to it - from inside the "
+            "work function of the running operation (own resource, a bystander's, from a nested operation a resource of "
+            "the enclosing one; twice; followed by a new acquisition of the new lock by itself or by another operation "
+            "while the work still runs) x every fault, and between the calls for operations of the step API that then "
+            "end in each way (kill, abort, complete, shutdown; another operation takes the new lock first) - each "
+            "followed by operations that need the same resources, and shutdown; 15 % of the random histories get "
+            "registrations between their steps and inside their (nested) work functions. Histories with a registration "
+            "do not run watchdog.execute / run_maintenance, do not release a re-registered id through the step API and "
+            "leave the dependency-graph rows out of the comparison (reg_safe; see ASSUMPTIONS). "
             "non-trivial = some fault, repeat, pre-held resource or scripted callback; distinct by content")
     LEVEL_TEXT = ("Coq theorems, for every well-formed controller state (an invariant proved to be preserved by every operation, so every "
                   "reachable state), every request list, priority, fault script, scripted work function and scripted checkpoint callbacks "
@@ -865,6 +1022,13 @@ class C14(Check):
                   "most once and only after it, success means exactly one run of each callable that was handed in "
                   "(c14_bodies_run_at_most_once); a callable whose signature does not accept the call execute_operation makes "
                   "never runs and the operation fails (c14_uncallable_work_never_runs, c14_uncallable_validator_never_passes); "
+                  "register_resource on the live system - a new id, or an id registered already, free or held - is a step of the "
+                  "histories and of the scripted work functions, keeps the invariant (c14_registration_keeps_invariant: the lock "
+                  "object an operation holds stays the one it will release, also once it is no longer registered), so every "
+                  "statement above holds with registrations anywhere; the lock registered anew is free and an operation ending "
+                  "afterwards keeps neither a registered nor a replaced lock (c14_end_after_registration_no_leak, "
+                  "c14_shutdown_after_registration_no_leak); the request may be any iterable: work runs only while the operation "
+                  "owns every id the caller put into it (c14_work_holds_all_yielded, c14_request_is_what_was_put_in); "
                   "beyond that the signatures and the truth value of the callables decide nothing (c14_signatures_irrelevant). The "
                   "model is tied to the code by running both on the same generated histories (model evaluated by vm_compute).")
     LEVEL_NOTE = ("Trusts: Coq kernel+VM; the correspondence harness; an operation id is never that of a live operation (driver-enforced; "
@@ -892,6 +1056,12 @@ class C14(Check):
                "method, callable object, **kw) and the shape of the checkpoint conditions (always one that accepts (ctx)) are "
                "not part of the model's alphabet: that they are transparent is what the correspondence on these cases tests; "
                "the harness builds the callables from generated source text (make_callable)",
+               "re-registration: the model keeps a replaced lock that is still held under a retired key (>= 1000, hidden from "
+               "the observations) and renames the id in the acquired_resources of the contexts that refer to it; the "
+               "dependency graph (labelled by resource id, shared by both generations of a lock) is NOT exact in the model "
+               "after a re-registration: it is neither compared nor read in such histories",
+               "iterables: the model turns (kind, items) into the list ONE pass yields (request_of); the kinds are built by "
+               "make_iterable; set / frozenset requests have one distinct element",
                "a LockResult other than acquired/blocked/reentrant/preempted is logged as code 8 (the model has no such "
                "result: any occurrence is a disagreement) and counts as 'not obtained' in the monitor"]
     ASSUMPTIONS = ["an operation is never started under the id of a LIVE operation; start_operation (step API) ids are fresh; "
@@ -899,7 +1069,14 @@ class C14(Check):
                    "(a nested call never uses the id of an operation whose execute_operation call is still in progress)",
                    "checkpoint callbacks end operations / let time pass (kill, watchdog.execute, run_maintenance, shutdown, tick) and inspect locks; "
                    "they do not acquire or release resources themselves",
-                   "resources are registered before the history starts and never re-registered",
+                   "resources are registered before the history starts or by register_resource steps of the history (new ids, "
+                   "and ids registered already: re-registration, between the calls and from inside work functions - not from "
+                   "checkpoint callbacks, whose alphabet is the termination alphabet); in a history with a registration the "
+                   "dependency graph is not compared, watchdog.execute / run_maintenance (its readers) are not run and a "
+                   "re-registered id is not released through the step API (harness rule reg_safe; Model.v, reregister)",
+                   "the `resources` argument is a list, tuple, generator, iterator, map object, one-shot or re-iterable "
+                   "object, dict keys view, dict, or a set / frozenset with one distinct id (the iteration order of a set of "
+                   "str is per process); what the operation requests is what ONE pass over it yields",
                    "exception objects raised by callbacks derive from Exception: KeyboardInterrupt / SystemExit / GeneratorExit and "
                    "other BaseException subclasses, which `except Exception` is not meant to stop, pass through execute_operation "
                    "without any clean-up and are outside the alphabet",
@@ -985,6 +1162,8 @@ class C14(Check):
             sc["cpw"] = [self._rand_cacts(rng, me, ops_pool) if rng.random() < 0.45 else [] for _ in range(rng.randint(1, 4))]
         if rng.random() < 0.25:
             sc["cp"] = [rng.choice(["default", "default", "false", "raise"]) for _ in range(rng.randint(1, 4))]
+        if rng.random() < 0.25:
+            sc["it"] = rng.choice([k for k in ITKINDS if k not in ("list", "set")])   # resources= as another iterable
         n = rng.choice([0, 0, 1, 2, 3, 4])
         for _ in range(n):
             k = rng.random()
@@ -1145,9 +1324,36 @@ class C14(Check):
             # the same system reached through IntegratedCell; read-only accessors between the operations
             if rng.random() < 0.25:
                 w.update({"via": "cell", "pool": rng.choice([1000, 1000, 1, 0]), "agent": rng.random() < 0.5})
+            # register_resource on the live system: new ids, and ids that are registered already (held or not) -
+            # between the calls and from inside work functions (also nested ones)
+            if rng.random() < 0.15:
+                ops = self._with_regs(rng, ops, [r for r, _ in res] + [rng.choice([4, 7])])
             if rng.random() < 0.3:
                 ops = self._with_looks(ops, lambda: rng.random() < 0.4)
-            out.append({"res": res, "w": w, "ops": ops})
+            out.append(reg_safe({"res": res, "w": w, "ops": ops}))
+        return out
+
+    @staticmethod
+    def _with_regs(rng, ops, res_pool):
+        def reg():
+            return ["reg", rng.choice(res_pool), rng.random() < 0.5]
+
+        def script(sc, depth=0):
+            work = []
+            for x in sc["work"]:
+                if rng.random() < 0.3:
+                    work.append(["do", reg()])
+                work.append(x[:4] + [script(x[4], depth + 1)] if x[0] == "exec" and rng.random() < 0.6 else x)
+            if rng.random() < (0.6 if depth == 0 else 0.3):
+                work.append(["do", reg()])
+            return {**sc, "work": work}
+        out = []
+        for a in ops:
+            if rng.random() < 0.2:
+                out.append(reg())
+            out.append(a[:4] + [script(a[4])] if a[0] == "exec" and rng.random() < 0.7 else a)
+        if not ops_use_reg(out):
+            out.insert(rng.randint(0, len(out)), reg())
         return out
 
     @staticmethod
@@ -1272,7 +1478,95 @@ class C14(Check):
         out += self._crowd_cases()
         out += self._value_cases()
         out += self._shape_cases()
-        return self._decorate(out)
+        out += self._iterable_cases()
+        out += self._rereg_cases()
+        return [reg_safe(c) for c in self._decorate(out)]
+
+    def _iterable_cases(self):
+        """resources= given as every kind of iterable (list, tuple, generator, iter(), map object, hand-written one-shot
+        iterator, hand-written re-iterable, dict keys, dict, set / frozenset) x request lists (one id, two, a repeat,
+        an id held by another operation that cannot be preempted -> must block, a preemptable one, an unregistered
+        one, empty) x faults, the work function looks at the locks; then an operation that needs the same resources."""
+        res = [[1, False], [2, True], [3, True]]
+        quick = self.tier == "quick"
+        faults = [f for f in FAULTS if f[0] in (("none", "work-raise", "validate-false", "cp1-false") if quick else
+                                                 tuple(n for n, _ in FAULTS))]
+        prefixes = [[], [["start", 5, 0, False], ["acq", 5, 1]], [["start", 5, 0, False], ["acq", 5, 2], ["acq", 5, 3]]]
+        if quick:
+            prefixes = prefixes[:2]
+        out = []
+        for kind in ITKINDS:
+            if kind == "list":
+                continue
+            lists = ([[1], [2], [2, 2], []] if kind == "set" else
+                     [[1], [2, 1], [2, 2, 1], [2, 9], []] + ([] if quick else [[2, 3], [3, 2, 3], [1, 2, 3], [3, 3]]))
+            for reqs in lists:
+                for _name, sc in faults:
+                    for pre in prefixes:
+                        sc1 = {**sc, "work": [["probe"]], "it": kind}
+                        out.append({"res": res, "w": dict(NOW), "ops": list(pre) + [
+                            ["exec", 1, 3, list(reqs), sc1],
+                            ["exec", 2, 4, list(reqs), plain_script(work=[["probe"]], it=kind)],
+                            ["shutdown"]]})
+            # nested: the work function runs an operation whose request is an iterable of this kind
+            inner = plain_script(work=[["probe"]], validate="true", it=kind)
+            for reqs2 in ([1], [3]) if kind == "set" else ([2, 1], [3], [1]):
+                for _name, sc in faults[:2]:
+                    sc1 = {**sc, "work": [["probe"], ["exec", 2, 9, list(reqs2), inner], ["probe"]], "it": kind}
+                    out.append({"res": res, "w": dict(NOW), "ops": [["exec", 1, 3, [1] if kind == "set" else [1, 3], sc1],
+                                                                      ["exec", 3, 0, [1, 2, 3], plain_script(work=[["probe"]])]]})
+        return out
+
+    def _rereg_cases(self):
+        """A resource REGISTERED AGAIN (register_resource with an id that is registered already: the only way to switch
+        allow_preemption) while an operation holds it - from inside the work function of the running operation (its
+        own resource, held once / re-entrantly / together with others; a resource of the enclosing operation from a
+        nested one; a resource of a bystander) x every fault, and between the calls for an operation of the step API
+        (holds once / twice / was preempted) that then ends in each of the five ways - then the same resources are
+        needed by a later operation, and shutdown.  Also: a free resource registered again, a new id registered on the
+        live system and used."""
+        res = [[1, False], [2, True], [3, True]]
+        out = []
+        follow = [["exec", 2, 0, [1, 2, 3], plain_script(work=[["probe"]], validate="true")], ["shutdown"]]
+        for reqs in ([1], [1, 2, 1], [2, 1], [3, 2]):
+            for r, pre in ((reqs[0], True), (reqs[0], False), (reqs[-1], True)):
+                for _name, sc in FAULTS:
+                    sc1 = {**sc, "work": [["probe"], ["do", ["reg", r, pre]], ["probe"]]}
+                    out.append({"res": res, "w": dict(NOW), "ops": [["exec", 1, 3, list(reqs), sc1]] + follow})
+            # twice during one work function; and a second operation takes the new lock while the work still runs
+            sc2 = plain_script(work=[["do", ["reg", reqs[0], True]], ["do", ["reg", reqs[0], False]], ["probe"],
+                                     ["do", ["start", 4, 9, False]], ["do", ["acq", 4, reqs[0]]], ["probe"]], validate="true")
+            out.append({"res": res, "w": dict(NOW), "ops": [["exec", 1, 3, list(reqs), sc2], ["kill", 4]] + follow})
+            # the operation takes the resource again after the registration (its reference moves to the new lock)
+            sc3 = plain_script(work=[["do", ["reg", reqs[0], True]], ["do", ["acq", 1, reqs[0]]], ["probe"]])
+            for _name, sc in FAULTS[6:]:
+                out.append({"res": res, "w": dict(NOW), "ops": [["exec", 1, 3, list(reqs), {**sc, "work": sc3["work"]}]] + follow})
+        # between the calls
+        for hold in ([["acq", 5, 1]], [["acq", 5, 1], ["acq", 5, 1]], [["acq", 5, 2], ["acq", 5, 1], ["acq", 5, 2]]):
+            for pre in (True, False):
+                for end in (["kill", 5], ["abort", 5], ["complete", 5], ["shutdown"], ["rel", 5, 3]):
+                    r = hold[0][2]
+                    ops = [["start", 5, 1, False]] + hold + [["reg", r, pre], end,
+                                                               ["exec", 1, 3, [r], plain_script(work=[["probe"]])]]
+                    out.append({"res": res, "w": dict(NOW), "ops": ops + follow})
+                    # somebody takes the new lock before the old holder ends
+                    ops = [["start", 5, 1, False]] + hold + [["reg", r, pre], ["start", 6, 0, False], ["acq", 6, r], end,
+                                                               ["complete", 6]]
+                    out.append({"res": res, "w": dict(NOW), "ops": ops + follow})
+        # a preempted operation and its preemptor share the replaced lock
+        for end in (["kill", 5], ["complete", 6], ["shutdown"]):
+            out.append({"res": res, "w": dict(NOW), "ops": [["start", 5, 1, False], ["acq", 5, 2], ["start", 6, 5, False],
+                                                            ["acq", 6, 2], ["reg", 2, False], end, ["kill", 6], ["kill", 5]] + follow})
+        # a nested operation re-registers what the enclosing one holds; the enclosing one then ends on every path
+        inner = plain_script(work=[["do", ["reg", 1, True]], ["probe"]], validate="true")
+        for _name, sc in FAULTS:
+            sc1 = {**sc, "work": [["probe"], ["exec", 2, 9, [3], inner], ["probe"]]}
+            out.append({"res": res, "w": dict(NOW), "ops": [["exec", 1, 3, [1, 2], sc1]] + follow})
+        # a free resource registered again (its waiting list goes with the old lock); a new id, then used
+        out.append({"res": res, "w": dict(NOW), "ops": [["start", 5, 0, False], ["acq", 5, 1], ["start", 6, 0, False], ["acq", 6, 1],
+                                                        ["complete", 5], ["reg", 1, True], ["acq", 6, 1], ["reg", 4, False],
+                                                        ["exec", 1, 3, [4, 1], plain_script(work=[["probe"]])]] + follow})
+        return out
 
     def _shape_cases(self):
         """The SHAPE of the callables: every kind (def, lambda, functools.partial, bound method, callable object,
@@ -1751,9 +2045,18 @@ class C14(Check):
             wl = max([len(l[3]) for l in st["after"].get("queues", {}).values()] or [0])
             if wl >= 4:
                 ks.append("waiting-list>=" + str(4 if wl < 8 else 8 if wl < 12 else 12 if wl < 20 else 20))
+            for c in ([{"op": a, "before": st["before"]}] if a[0] == "reg" else []) + \
+                    [c for c in st["calls"] if c["op"][0] == "reg"]:
+                held = c["before"]["owners"].get(c["op"][1], None)
+                where = "" if c["op"] is a else "-inside-work"
+                ks.append("register" + where + ("=new-id" if held is None else "=again-while-free" if held[0] == -1
+                                                else "=again-while-held"))
             if a[0] == "exec" and st["info"]:
                 info = st["info"]
                 ks.append("exec-success" if info["success"] else "exec-failed")
+                for sub in [info] + self._all_nested(info):
+                    if sub.get("it", "list") != "list":
+                        ks.append("request-iterable=" + sub["it"])
                 ks += self._nested_tags(a[4], info)
                 if any(x[0] == "look" for acts in [a[4]["work"]] + a[4].get("cpw", []) for x in acts):
                     ks.append("accessors-inside-callback")
@@ -1868,6 +2171,10 @@ class C14(Check):
             yield {**sc, "cp": []}
         if sc.get("val"):
             yield {**sc, "val": 0}
+        if sc.get("it"):
+            yield {k: v for k, v in sc.items() if k != "it"}
+            if sc["it"] != "gen" and sc["it"] in IT_ONE_SHOT:
+                yield {**sc, "it": "gen"}
         if sc.get("sig"):
             yield {k: v for k, v in sc.items() if k != "sig"}
             for site, spec in sc["sig"].items():
